@@ -76,7 +76,9 @@ def energy_second_moment_mps_impl(
     """
     h_square = hamiltonian @ hamiltonian
     h_2 = h_square.expect(state).cpu()
-    assert torch.allclose(h_2.imag, torch.zeros_like(h_2.imag), atol=1e-4)
+    # H² is truncated to a relative precision: its anti-Hermitian part, hence the
+    # imaginary part below, scales with the size of ❬H²❭
+    assert abs(h_2.imag.item()) <= 1e-4 * max(1.0, abs(h_2.real.item()))
     return h_2.real
 
 
